@@ -153,6 +153,8 @@ class Sidecar:
         merged_dict = {}
         for file in files:
             loaded_json = self.load_sidecar_file(file)
+            if not isinstance(loaded_json, dict):
+                raise HedFileError(HedExceptions.CANNOT_PARSE_JSON, "A sidecar must be a JSON object", self.name)
             merged_dict.update(loaded_json)
         return merged_dict
 
